@@ -255,6 +255,12 @@ func judgeC17(c *c17Case, obs *c17Obs, o *Outcome) {
 			o.Class("skipped")
 			return
 		}
+		if c.Real && strings.Contains(obs.Note, "could not establish") && strings.Contains(obs.Note, "context deadline exceeded") {
+			// real sockets on a busy machine: a handshake that ran into its 20 s budget decides nothing (in virtual time, where
+			// nothing can be slow, the same is a violation)
+			o.Class("inconclusive-handshake-timeout")
+			return
+		}
 		if strings.Contains(obs.Note, "could not establish") {
 			// every client dials a working server: a session that cannot be established is a symptom, not a harness problem
 			o.Fail("C17/session-not-established", "%s", obs.Note)
